@@ -10,6 +10,10 @@ func main() {
 		vlib.Group{Name: "linesearch", Gen: genLinesearch},
 		vlib.Group{Name: "sched", Gen: genSched},
 		vlib.Group{Name: "reuse", Gen: genReuse},
+		vlib.Group{Name: "special", Gen: genSpecial},
+		vlib.Group{Name: "inputs", Gen: genInputs},
+		vlib.Group{Name: "lsadv", Gen: genLSAdversarial},
+		vlib.Group{Name: "defs", Gen: genDefs},
 		vlib.Group{Name: "lp-std", Gen: genLPStd},
 		vlib.Group{Name: "lp-family", Gen: genLPFamily},
 		vlib.Group{Name: "lp-convert", Gen: genLPConvert},
